@@ -6,7 +6,12 @@ import (
 	"fmt"
 	"github.com/jf-tech/omniparser"
 	"sort"
+	"strconv"
 	"strings"
+
+	"github.com/jf-tech/omniparser/customfuncs"
+	"github.com/jf-tech/omniparser/extensions/omniv21"
+	"github.com/jf-tech/omniparser/transformctx"
 )
 
 // ---- abstract declaration trees as emitted by MC_Eval
@@ -109,12 +114,16 @@ func (r *schemaRenderer) body(i int) []string {
 			es = append(es, r.node(c))
 		}
 		parts = append(parts, `"array": [`+strings.Join(es, ", ")+`]`)
-	case "concat", "coalesce", "upper":
+	case "concat", "coalesce", "upper", "sig":
 		var as []string
 		for _, c := range t.kids(i) {
 			as = append(as, r.node(c))
 		}
-		parts = append(parts, `"custom_func": {"name": "`+t.Kind[i-1]+`", "args": [`+strings.Join(as, ", ")+`]}`)
+		name := t.Kind[i-1]
+		if name == "sig" {
+			name = "vsig"
+		}
+		parts = append(parts, `"custom_func": {"name": "`+name+`", "args": [`+strings.Join(as, ", ")+`]}`)
 	}
 	if t.Ty[i-1] != "none" {
 		parts = append(parts, `"type": `+jstr(t.Ty[i-1]))
@@ -251,6 +260,22 @@ func outputTokens(res []Res) []string {
 	}
 }
 
+// vsig: a user function with a typed signature, registered through an Extension; it prints what it received
+func vsig(_ *transformctx.Ctx, s string, i int64, f float64, b bool) (string, error) {
+	return fmt.Sprintf("%s#%d#%s#%t#", s, i, strconv.FormatFloat(f, 'f', -1, 64), b), nil
+}
+
+// evalExtensions: the built-in extension, unless the tree calls a user function
+func evalExtensions(t *dtree) []omniparser.Extension {
+	for _, k := range t.Kind {
+		if k == "sig" {
+			return []omniparser.Extension{{CreateSchemaHandler: omniv21.CreateSchemaHandler,
+				CustomFuncs: customfuncs.Merge(allCustomFuncs(), customfuncs.CustomFuncs{"vsig": vsig})}}
+		}
+	}
+	return nil
+}
+
 func c02Replay(args []string) int {
 	sum := newSummary()
 	nviol, rejected := 0, 0
@@ -283,7 +308,7 @@ func c02Replay(args []string) int {
 						cache = map[string]*cached{}
 					}
 					ce = &cached{schema: renderEvalSchema(&c.T, format, o)}
-					ce.sch, ce.err, ce.p = newSchema([]byte(ce.schema))
+					ce.sch, ce.err, ce.p = newSchema([]byte(ce.schema), evalExtensions(&c.T)...)
 					cache[ck] = ce
 				}
 				schema, sch, e, p := ce.schema, ce.sch, ce.err, ce.p
